@@ -14,7 +14,8 @@ MC_A0Choices == {7}
 MC_CoeffChoices == {3}
 MC_KChoices == {2}
 MC_Deltas == {1,10}
-MC_Faults == {"none","r1field","r1len","r1swap","r1graft","r1own","r1unknown","r1missing","r1surplus","r1late","r2delta","r2route","r2own","r2unknown","r2missing","r2surplus"}
+MC_Faults == {"none","r1field","r1len","r1swap","r1graft","r1own","r1unknown","r1missing","r1surplus","r1late","r2delta","r2route","r2own","r2unknown","r2missing","r2surplus","bothmissing","bothsurplus"}
+MC_PairMode == "all"
 MC_EMIT == TRUE
 
 ====
